@@ -40,6 +40,9 @@ func (n *Notifier) CheckAndSend(response *protocol.ConsumerGroupStatus) {
 // ShiftTimes moves stored instants back by d.
 func (n *Notifier) ShiftTimes(d time.Duration) { n.c.VerifShiftTimes(d) }
 
+// Refresh runs one refresh of the group records from storage's listings.
+func (n *Notifier) Refresh() { n.c.VerifRefresh() }
+
 // StartEvalLoops starts manageEvalLoop.
 func (n *Notifier) StartEvalLoops() { n.c.VerifStartEvalLoops() }
 
